@@ -25,6 +25,10 @@ def _case(draw, max_n=24, anchored=False, decades=1.0):
            "shift": draw(st.integers(0, 7)), "flag": draw(st.sampled_from(["convex", "convex", "default", "not_assumed"])),
            "fdtype": draw(st.sampled_from(["list", "list", "int64", "int32", "uint8", "uint32", "uint64"])),
            "vform": draw(st.sampled_from(FORMS))}
+    if draw(st.integers(0, 24)) == 0:
+        # one case in 25 is a polycube grown from the ring template (genus 1): left to the template draw alone the class
+        # came out at 0.4 %..1 % of the cases depending on the seed
+        out["mesh"] = dict(draw(zoo.mesh3d(kinds=("voxel",), max_n=max_n)), template="ring")
     if anchored:
         out["anchor"] = draw(st.sampled_from(zoo.ANCHORS))
         out["anchor_k"] = draw(st.integers(0, 40))
